@@ -21,7 +21,7 @@ type c07Stream struct{}
 
 func (c07Stream) Name() string               { return "c07" }
 func (c07Stream) CaseTimeout() time.Duration { return 60 * time.Second }
-func (c07Stream) NoModel() bool               { return true }
+func (c07Stream) NoModel() bool              { return true }
 func (c07Stream) Rule() string {
 	return "one fault per scenario - a panicking handler for each concurrently dispatched operation (bind, search, modify, add, delete, extended), for StartTLS, for the unbind route and for the default route; a connection reset; a truncated frame followed by silence; a client that sends searches with large results and never reads; descriptor exhaustion at accept (RLIMIT_NOFILE lowered in the worker); a frame of 2^20 nested indefinite-length sequence headers (goroutine stack limit lowered to 32 MiB in the worker) - injected while two bystander connections issue requests continuously; oracle: the worker process survives, the bystanders keep receiving correct responses during and after the fault, and a new connection is accepted and served afterwards; non-trivial = every scenario, distinct by fault"
 }
@@ -78,7 +78,9 @@ func (c07Stream) Impl(c Case) string {
 	_ = mux.Add(h)
 	_ = mux.Delete(h)
 	_ = mux.ExtendedOperation(h, gldap.ExtendedOperationWhoAmI)
-	_ = mux.ExtendedOperation(func(w *gldap.ResponseWriter, r *gldap.Request) { panic("starttls handler panic injected by the harness") }, gldap.ExtendedOperationStartTLS)
+	_ = mux.ExtendedOperation(func(w *gldap.ResponseWriter, r *gldap.Request) {
+		panic("starttls handler panic injected by the harness")
+	}, gldap.ExtendedOperationStartTLS)
 	_ = mux.Unbind(func(w *gldap.ResponseWriter, r *gldap.Request) {
 		if r.VerifMessage().GetID() == 666 {
 			panic("unbind handler panic injected by the harness")
